@@ -278,7 +278,13 @@ func (h *harnessRun) runPath(sess *session, prefix []int) {
 				panicMsg = i.describePanic(r)
 				h.noteObligation()
 				vec, ok := i.currentModel()
-				if !ok {
+				if !ok && !i.cfg.OneShotAll && i.cfg.Concrete == nil && p.sess.check(nil) == solver.Unsat {
+					// the path condition is unsatisfiable: this path was entered
+					// only because an earlier feasibility query came back unknown
+					// (both sides are kept then); no input reaches the panic
+					h.noteDischarged(false)
+					pruned = true
+				} else if !ok {
 					h.noteInconclusive("uncaught panic " + panicMsg + " but no model")
 				} else {
 					h.noteViolation(&Violation{Harness: h.name, Label: "uncaught-panic", Where: r.where, Vector: vec, Shape: p.shape(),
